@@ -138,8 +138,18 @@ func (k Keeper) CalculateBatchAllocation(ctx context.Context, auction types.Auct
 		mInfo.RefundMap[bidder] = reservedAmtByBidder[bidder].Sub(bidderRes.PayingAmount)
 	}
 
+	// Flag exactly the bids matched by this matching; a bid matched in an earlier
+	// (extended) round that is outbid now must lose its flag.
+	matchedBidIds := map[uint64]struct{}{}
 	for _, bid := range matchRes.MatchedBids {
-		bid.SetMatched(true)
+		matchedBidIds[bid.Id] = struct{}{}
+	}
+	for _, bid := range bids {
+		_, isMatched := matchedBidIds[bid.Id]
+		if bid.IsMatched == isMatched {
+			continue
+		}
+		bid.SetMatched(isMatched)
 		if err := k.Bid.Set(ctx, collections.Join(bid.AuctionId, bid.Id), bid); err != nil {
 			return mInfo, err
 		}
